@@ -34,15 +34,18 @@ Section Alph.
             if fge FO ratio k02 then [(lang, ratio)] else []
       end) LANGUAGES.
 
-  (* removal of one occurrence *)
+  (* removal of one occurrence of x: the one with the GREATEST ratio (the first among equals).  A language can have
+     several rows in the table (Japanese: kanji, hiragana, katakana) and then occurs several times, best row first *)
   Fixpoint take_lang (x : string) (l : list (string * F FO)) : option (F FO * list (string * F FO)) :=
     match l with
     | [] => None
-    | (n, r) :: rest => if String.eqb n x then Some (r, rest)
-                        else match take_lang x rest with
-                             | Some (r', rest') => Some (r', (n, r) :: rest')
-                             | None => None
-                             end
+    | (n, r) :: rest =>
+        match take_lang x rest with
+        | Some (r', rest') =>
+            if String.eqb n x && oge FO r r' then Some (r, rest)
+            else Some (r', (n, r) :: rest')
+        | None => if String.eqb n x then Some (r, rest) else None
+        end
     end.
 
   (* the answer is a permutation of the candidate names, listed in non-increasing (OrderedFloat) ratio order *)
